@@ -669,3 +669,31 @@ package fsm
 //@   ensures[nomove] acctBal() == old(acctBal()) && poolBal() == old(poolBal()) && drift(s) == old(drift(s))
 //@ func (*StateMachine).ResetOrder
 //@   ensures[nomove] acctBal() == old(acctBal()) && poolBal() == old(poolBal()) && drift(s) == old(drift(s))
+
+// ---- C04: automatic (begin / end block) token movements ------------------------------------------------------------
+// the block mint: what is created lands in pools and in the recorded total alike, and the total grows by at most the
+// scheduled amount InitialTokensPerBlock >> (height / BlocksPerHalvening) (the per-committee split may round down)
+//@ func (*StateMachine).GetParamsGov
+//@   trusted
+//@   pure
+//@ func (*StateMachine).GetSubsidizedCommittees
+//@   trusted
+//@   pure
+//@ func (*StateMachine).GetBlockMintStats
+//@   modifies BigVal
+//@   ensures[bounded] err == nil ==> daoCut + mintAmountPerCommittee * len(subsidizedChainIds) <= totalMint
+//@ func (*StateMachine).FundCommitteeRewardPools
+//@   loop 1 invariant[conserve] drift(s) == old(drift(s))
+//@   loop 1 invariant[minted] supTotal(s) == old(supTotal(s)) + daoCut + iter * mintAmountPerCommittee && iter <= len(subsidizedChainIds)
+//@   ensures[conserve] result == nil ==> drift(s) == old(drift(s))
+// finishing an unstake: the stake goes to the validator's output address and leaves the stake sum; nothing is
+// created or destroyed
+//@ func (*StateMachine).EventFinishUnstaking
+//@   trusted
+//@   modifies lib.EventsTracker.Events, elems(*lib.Event)
+//@ func AddressFromKey
+//@   trusted
+//@   pure
+//@ func (*StateMachine).DeleteFinishedUnstaking$1
+//@   callsite AccountAdd requires[tooutput] validator.Output != nil ==> addrOf(callee.address) == bytes(validator.Output) && callee.amountToAdd == validator.StakedAmount
+//@   ensures[conserve] isnil(result) ==> drift(s) == old(drift(s)) && supTotal(s) == old(supTotal(s)) && poolBal() == old(poolBal())
